@@ -189,6 +189,21 @@ def queries_raw(tier):
         al2 = alphabet("all", v2, w2)
         for (n1, g1), (n2, g2) in itertools.product(al1, al2):
             qs.append(("pair:%s:%s,%s" % (pat, n1, n2), [g1, g2]))
+    # query variables that are named like the names the toplevel makes up for fresh variables (_A, _B, ...)
+    # next to answers that hold several fresh variables: the made-up names must avoid them AND stay distinct
+    A_, B_, C_, G_ = V("_A"), V("_B"), V("_C"), V("_G")
+    an = lambda: V("_")
+    for k, goals in enumerate([
+            [("=", Y, A_), ("=", Z, ("f", an(), an()))],
+            [("=", Y, A_), ("=", Z, ("f", an(), an(), an()))],
+            [("=", Y, B_), ("=", Z, ("f", an(), an(), an()))],
+            [("=", Y, ("g", A_, C_)), ("=", Z, ("f", an(), an(), an(), an()))],
+            [("=", Y, ("g", A_, B_)), ("=", Z, L(an(), an(), an()))],
+            [("=", Z, ("f", an(), an())), ("=", Y, A_)],
+            [("=", Y, G_), ("=", Z, ("f", an(), X, an(), an()))],
+            [("=", Y, A_), ("dif", Z, ("f", an(), an()))],
+    ]):
+        qs.append(("fresh:%d" % k, goals))
     names = ["mem2", "or2f", "btw", "difa", "difvw", "alias", "s_f", "s_plist", "tf"]
     if tier == "thorough":
         names += ["orf2", "diff", "frz", "s_str", "tt", "fail"]
